@@ -63,6 +63,8 @@ var findingOf = map[string]string{
 	"pypi:localpre":      "F-C02-pypi-local-pre",
 	"pypi:localupper":    "F-C02-pypi-local-case",
 	"maven:finalsnapshot": "F-C02-mvn-final-snapshot",
+	"maven:zerosnapshot":  "F-C02-mvn-zero-snapshot",
+	"maven:dotunknown":    "F-C02-mvn-dot-unknown",
 	"gem:upper":          "F-C02-gem-case",
 }
 
